@@ -83,10 +83,33 @@ Fixpoint list_eqb {A} (eqb : A -> A -> bool) (a b : list A) : bool :=
   | _, _ => false
   end.
 
-(** [impl PartialEq for Regex]: root, inputs (spans included), end marker, arena. *)
+Fixpoint rx_eqb (a b : rx) : bool :=
+  match a, b with
+  | XEps, XEps => true
+  | XPos k p, XPos k' p' =>
+      N.eqb p p' && match k, k' with
+                    | KTerm, KTerm | KNonterm, KNonterm | KCmd, KCmd | KSub, KSub | KEnd, KEnd => true
+                    | _, _ => false
+                    end
+  | XCat x, XCat y | XOr x, XOr y =>
+      (fix go (l m : list rx) : bool :=
+         match l, m with
+         | [], [] => true
+         | u :: l', v :: m' => rx_eqb u v && go l' m'
+         | _, _ => false
+         end) x y
+  | XStar x, XStar y => rx_eqb x y
+  | _, _ => false
+  end.
+
+(** [impl PartialEq for Regex]: root, inputs (spans included), end marker, arena.  The tree is
+    compared as well: it is the unfolding of the arena from the root ([arena_consistent], checked by
+    the driver on every regex), so this never changes the answer; it makes [regex_eqb] reflect
+    equality of the model's records. *)
 Definition regex_eqb (a b : regex) : bool :=
   N.eqb (r_root a) (r_root b) && list_eqb rinput_eqb (r_inputs a) (r_inputs b)
-  && N.eqb (r_end a) (r_end b) && list_eqb rnode_eqb (r_arena a) (r_arena b).
+  && N.eqb (r_end a) (r_end b) && list_eqb rnode_eqb (r_arena a) (r_arena b)
+  && rx_eqb (r_tree a) (r_tree b).
 
 (** [RegexInternPool]: the id of a regex is its index. *)
 Definition pool := list regex.
@@ -222,20 +245,26 @@ Definition finish_regex (id : N) (t : rx) (s : bst) : regex :=
 
 Definition empty_bst : bst := mkbst [] [].
 
+(** The [subexprs.iter().map(do_from_expr).collect::<Result<_>>()] of the n-ary nodes. *)
+Section Children.
+  Variable f : expr -> bst -> pool -> rres (N * rx * bst * pool).
+
+  Fixpoint do_children (l : list expr) (s : bst) (pl : pool)
+    : rres (list N * list rx * bst * pool) :=
+    match l with
+    | [] => Ok ([], [], s, pl)
+    | c :: rest =>
+        do r1 <- f c s pl;
+        let '(id, t, s1, pl1) := r1 in
+        do r2 <- do_children rest s1 pl1;
+        let '(ids, ts, s2, pl2) := r2 in
+        Ok (id :: ids, t :: ts, s2, pl2)
+    end.
+End Children.
+
 (** Result: node id, the tree below it, builder state, pool. *)
 Fixpoint do_from_expr (e : expr) (s : bst) (pl : pool) : rres (N * rx * bst * pool) :=
-  let children :=
-    fix children (l : list expr) (s : bst) (pl : pool)
-      : rres (list N * list rx * bst * pool) :=
-      match l with
-      | [] => Ok ([], [], s, pl)
-      | c :: rest =>
-          do r1 <- do_from_expr c s pl;
-          let '(id, t, s1, pl1) := r1 in
-          do r2 <- children rest s1 pl1;
-          let '(ids, ts, s2, pl2) := r2 in
-          Ok (id :: ids, t :: ts, s2, pl2)
-      end in
+  let children := do_children do_from_expr in
   match e with
   | Terminal t d l sp =>
       let (p, s1) := push_input (RLit t d l sp) s in
@@ -311,25 +340,6 @@ Fixpoint unfold_arena (fuel : nat) (arena : list rnode) (id : N) : option rx :=
       | Some (NOr cs) => option_map XOr (all cs)
       | Some (NStar c) => option_map XStar (unfold_arena f arena c)
       end
-  end.
-
-Fixpoint rx_eqb (a b : rx) : bool :=
-  match a, b with
-  | XEps, XEps => true
-  | XPos k p, XPos k' p' =>
-      N.eqb p p' && match k, k' with
-                    | KTerm, KTerm | KNonterm, KNonterm | KCmd, KCmd | KSub, KSub | KEnd, KEnd => true
-                    | _, _ => false
-                    end
-  | XCat x, XCat y | XOr x, XOr y =>
-      (fix go (l m : list rx) : bool :=
-         match l, m with
-         | [], [] => true
-         | u :: l', v :: m' => rx_eqb u v && go l' m'
-         | _, _ => false
-         end) x y
-  | XStar x, XStar y => rx_eqb x y
-  | _, _ => false
   end.
 
 Definition arena_consistent (r : regex) : bool :=
